@@ -140,6 +140,29 @@ def mutation_case(col, rng):
             col.add(None)
 
 
+def constructor_rejections_case(col):
+    """Model(nodes_and_vars, grow=False) used directly (no automatic naming): unnamed duplicates must be rejected like named ones"""
+    bad = None
+    def attempts():
+        a, b = lsl.Value(1.0), lsl.Value(2.0)
+        yield "two unnamed nodes", lambda: lsl.Model([a, b, lsl.Calc(lambda x, y: x + y, a, b, _name="c")], grow=False)
+        d1, d2 = lsl.Value(1.0, _name="d"), lsl.Value(2.0, _name="d")
+        yield "duplicate name next to a distinct one", lambda: lsl.Model([lsl.Value(0.0, _name="n"), d1, d2], grow=False)
+        v1, v2 = lsl.Var(1.0), lsl.Var(2.0)
+        for i, v in enumerate((v1, v2)):
+            v.value_node.name = f"w{i}_value"
+            v.var_value_node.name = f"w{i}_var_value"
+        yield "two unnamed variables", lambda: lsl.Model([v1, v2, v1.value_node, v2.value_node, v1.var_value_node, v2.var_value_node], grow=False)
+    for what, mk in attempts():
+        try:
+            m = mk()
+            bad = f"{what}: accepted (model nodes {list(m.nodes)}, vars {list(m.vars)})"
+            break
+        except RuntimeError:
+            pass
+    col.add({"sig": "native::rejections::constructor", "what": bad, "input": {"entry": "Model(..., grow=False)"}} if bad else None)
+
+
 def foreign_variable_case(col):
     """a model-free variable must not be able to take over a node frozen in a model (bare Value node: no variable owns it)"""
     z = lsl.Value(np.float32(2.5), _name="z")
@@ -262,6 +285,20 @@ def bounded(tier, seed):
                 case(col, rng, how, seeded)
                 n += 1
     mutation_case(col, rng)
+    try:
+        # "orders updates topologically" for the targeted update too: scripted histories of rtc.c01 on a graph with two paths of different length
+        import random as _random
+        from rtc.c01 import ORDER_SCRIPTS, OrderSpec, run_history
+        v_ = None
+        for sc in ORDER_SCRIPTS:
+            v_ = v_ or run_history(None, _random.Random(0), OrderSpec(), 0, script=sc)
+        col.add({**v_, "sig": "native::structure::targeted_update_order"} if v_ else None)
+    except Exception as e:
+        col.add({"sig": f"native::structure::exception::{type(e).__name__}", "what": str(e)[:200], "input": {"scenario": "targeted update order"}})
+    try:
+        constructor_rejections_case(col)
+    except Exception as e:
+        col.add({"sig": f"native::rejections::exception::{type(e).__name__}", "what": str(e)[:200], "input": {"scenario": "constructor rejections"}})
     try:
         foreign_variable_case(col)
     except Exception as e:
